@@ -29,7 +29,7 @@ PY_STMTS = [
 
 XSH_STMTS = [
     "$X = 1\n", "x = $HOME\n", "${'a' + b} = 2\n", "x = ${y}\n", "ls -l\n" if False else "$(ls -l)\n", "x = $(echo hi)\n", "$[ls]\n",
-    "x = !(ls -la /tmp)\n", "![echo $HOME]\n", "x = `.*\\.py`\n", "y = g`*.py`\n", "x = p'/tmp'\n", "x = pf'/{a}'\n", "x = pr'\\n'\n",
+    "x = !(ls -la /tmp)\n", "![echo $HOME]\n", "x = `.*\\.py`\n", "y = g`*.py`\n", "x = p'/tmp'\n", "x = pf'/{a}'\n", "a = p\"/usr\" pf\"/{name}\"\n", "b = \"plain\"\n", "print(f\"{x} done\")\n", "x = pr'\\n'\n",
     "a?\n", "a??\n", "a?.b?\n", "x = a && b || c\n", "$(echo @(x) @$(which ls))\n", "$(echo a$HOME/b)\n", "f!(a, b c)\n", "x = f!(1 +)\n",
     "with! ctx:\n    a b c\n    d\n", "with! ctx: inline text\n", "$(echo! hello  world)\n", "for $I in x: pass\n", "with a as $B: pass\n",
     "x = [$A for $A in y]\n", "$(ls | grep x)\n", "$(ls > out.txt)\n", "x = $(ls) + $(pwd)\n", "$[echo 'a b' \"c\"]\n", "x = f'{$HOME}'\n",
